@@ -9,7 +9,7 @@ git -C /repo worktree add -q --detach "$W/repo" HEAD || exit 2
 git -C "$W/repo" apply "$PATCH" || { echo "PATCH DOES NOT APPLY"; git -C /repo worktree remove --force "$W/repo"; rm -rf "$W" "$OUT"; exit 2; }
 cd "$(dirname "$0")/.."
 for id in "$@"; do
-  FORMAK_REPO="$W/repo" VERIF_OUT="$OUT" VERIF_WALL="${VERIF_WALL:-150}" VERIF_EXAMPLES="${VERIF_EXAMPLES:-60}" VERIF_SHARDS=4 timeout 900 ./check "$id" thorough > "$OUT/$id.log" 2>&1
+  FORMAK_REPO="$W/repo" VERIF_OUT="$OUT" VERIF_WALL="${VERIF_WALL:-150}" VERIF_EXAMPLES="${VERIF_EXAMPLES:-60}" VERIF_SHARDS=4 timeout 900 ./check "$id" "${TIER:-thorough}" > "$OUT/$id.log" 2>&1
   f=$(ls "$OUT"/replays/${id}_*.json 2>/dev/null | head -1)
   if [ -n "$f" ]; then
     mkdir -p "corpus/$id"
